@@ -168,6 +168,10 @@ def _explore(out, tier, seed, facts, replay):
         if not common.close(pt, want, 1e-6):
             out.violation("missing-member-counted", "P(X<=%r) from members %r (None = missing) is %r; with the missing members deleted it is %r"
                           % (t, members, pt, want), {"members": members, "threshold": t})
+    # (2d) scores that use several quantities are taken over the cases where ALL of them are present (threshold probabilities,
+    #      quantile columns, observation and forecast, in every input): shared falsifier
+    import probtie
+    nf += probtie.run(out, rng, 5 if tier == "quick" else 50, "joint-validity")
     # (3) encodings: text tokens and NetCDF cells
     tmp = tempfile.mkdtemp(prefix="vfc04_")
     try:
@@ -181,6 +185,20 @@ def _explore(out, tier, seed, facts, replay):
             o, f = inp.obs, inp.fcst
             if not (np.isnan(o[0, 0, 0]) and np.isnan(f[0, 0, 1]) and o[0, 0, 1] == 3):
                 out.violation("text-encoding:%s" % tok, "text token %r not read as missing: obs=%r fcst=%r" % (tok, o.tolist(), f.tolist()), {"token": tok})
+        # a (time, lead time, location) combination whose row is ABSENT from a text file is missing in every array of the reader,
+        # the ensemble members and probability / quantile columns included
+        fn = os.path.join(tmp, "sparse.txt")
+        open(fn, "w").write("unixtime leadtime location obs fcst e0 e1 p5 q0.5 pit\n0 0 1 1 2 3 4 0.5 2.5 0.25\n0 6 1 2 3 4 5 0.75 3.5 0.5\n86400 0 1 3 4 5 6 0.25 4.5 0.75\n")
+        nf += 1
+        try:
+            inp = verif.input.Text(fn)
+            absent = {"obs": inp.obs[1, 1, 0], "fcst": inp.fcst[1, 1, 0], "pit": inp.pit[1, 1, 0], "member 0": inp.ensemble[1, 1, 0, 0], "member 1": inp.ensemble[1, 1, 0, 1],
+                      "p5": inp.threshold_scores[1, 1, 0, 0], "q0.5": inp.quantile_scores[1, 1, 0, 0]}
+            wrong = {k_: float(v_) for k_, v_ in absent.items() if not np.isnan(v_)}
+            if wrong:
+                out.violation("absent-row-numeric", "a text file without a row for (time 86400, lead time 6): the reader's arrays hold %r there instead of missing values" % (wrong,), {"file": open(fn).read()})
+        except Exception as e:
+            out.violation("absent-row-exception", "%r" % (e,), {"file": open(fn).read()})
         # a missing token in a COORDINATE column (date, unixtime): the row is dropped, the reader does not crash
         for tcol, good1, good2 in (("date", "20120101", "20120102"), ("unixtime", "1325376000", "1325462400")):
             for tok in ("-999", "NA", "-999.0"):
